@@ -335,7 +335,8 @@ _vbi_sampling_par_permit_service
 
 		samples = samples_per_line / (double) sp->sampling_rate;
 
-		if (strict > 0)
+		/* (int) for compatibility with libzvbi 0.2.x (-1 == 0) */
+		if ((int) strict > 0)
 			samples -= 1e-6; /* headroom */
 
 		if (samples < signal) {
